@@ -32,6 +32,8 @@ def check(tier, seed, replay=None):
     else:
         quick = tier == "quick"
         PC.model_check(chk, FAMILIES, 3 if quick else 4, ["Composition"], workers=8 if quick else 12)
+        PC.model_check(chk, ["group", "split"] if quick else FAMILIES, 2 if quick else 3, PC.PROTOCOL, workers=8 if quick else 12)
+        PC.expect_dev(chk, "DevLimiterNoComplete", "group", 2, "CompleteDiscipline")
         PC.expect_dev(chk, "DevLimiterNoComplete", "group", 2, "Composition")
         PC.expect_dev(chk, "DevPopOldest", "sort", 2, "Composition")
         PC.expect_dev(chk, "DevTruncAll", "sort", 2, "Composition")
